@@ -436,6 +436,7 @@ var ErrorKey = object.String{Value: "err"} // can't use error as that's a builti
 
 func (s *State) evalDelete(node ast.Node) object.Object {
 	s.env.TriggerNoCache()
+	s.ResetCache() // remembered results may depend on the deleted binding (constants and functions are not misses).
 	switch node.Value().Type() {
 	case token.IDENT:
 		name := node.Value().Literal()
